@@ -29,6 +29,29 @@ def dsha(b: bytes) -> bytes:
     return hashlib.sha256(hashlib.sha256(b).digest()).digest()
 
 
+# ------------------------------------------------------------------ time limit for implementation calls
+
+class Hang(BaseException):
+    """the implementation did not return within the time limit (e.g. an array count far beyond the data: `f.read(32)`
+    succeeds on an exhausted stream, so a `[#]` array loops `count` times)"""
+
+
+def _alarm(_sig, _frm):
+    raise Hang()
+
+
+def limited(fn, *a, seconds=3.0, **k):
+    import signal
+    old = signal.signal(signal.SIGALRM, _alarm)
+    signal.setitimer(signal.ITIMER_REAL, seconds)
+    try:
+        return fn(*a, **k)
+    finally:
+        signal.setitimer(signal.ITIMER_REAL, 0)
+        signal.signal(signal.SIGALRM, old)
+
+
+
 # ------------------------------------------------------------------ reference layouts (Bitcoin protocol docs, pycoin's field names)
 # element types: u8 u32 u64 u48 varint varstr hash bool optbool netaddr inv tx block header;  [t] array, [(t,t)] array of tuples
 REF = {
